@@ -781,3 +781,126 @@ def find_resources(case, rp):
                                         found_by='small-scope native enumeration (%d cases)' % n)
     return dict(confirmed=False, detail='model did not reproduce; %d small node / '
                 'request cases hold natively' % n)
+
+
+# ------------------------------------------------------------------------------
+# C01 / C02: Continuous.schedule_task
+#
+def mk_sched(rp, nodes, cpn, gpn, lfs_pn=0, mem_pn=0, scattered=True,
+             colo=None, tagged=None, offset=0):
+    c = mk_continuous(rp, nodes)
+    info = AttrDict(cores_per_node=cpn, gpus_per_node=gpn, lfs_per_node=lfs_pn,
+                    mem_per_node=mem_pn)
+    c._rm = AttrDict(info=info)
+    c._colo_history = dict(colo or {})
+    c._tagged_nodes = set(tagged or [])
+    c._partition_ids = []
+    c._scattered = scattered
+    c._node_offset = offset
+    return c
+
+
+def mk_atask(ranks=1, cpr=1, gpr=0.0, lfs=0, mem=0, rpn=None, tags=None,
+             partition=None, uid='task.0000'):
+    td = {'ranks': ranks, 'ranks_per_node': rpn, 'cores_per_rank': cpr,
+          'gpus_per_rank': gpr, 'lfs_per_rank': lfs, 'mem_per_rank': mem,
+          'tags': dict(tags or {}), 'partition': partition}
+    return {'uid': uid, 'description': td}
+
+
+def check_placement(nodes, slots, td, colo_hist=None):
+    """C01/C02 clauses on a granted placement, against the node list as it was"""
+    probs = []
+    cps = td['cores_per_rank'] or 1
+    gps = td['gpus_per_rank']
+    if len(slots) != td['ranks']:
+        probs.append('%d ranks placed, %d requested' % (len(slots), td['ranks']))
+    by_index = {n['index']: n for n in nodes}
+    used_c, used_g, share, lfs, mem, per_node = set(), set(), dict(), dict(), dict(), dict()
+    for s in slots:
+        n = by_index.get(s['node_index'])
+        if n is None:
+            probs.append('slot names node %r which the pilot does not offer' % s['node_index']); continue
+        ni = s['node_index']
+        per_node[ni] = per_node.get(ni, 0) + 1
+        if len(s['cores']) != cps:
+            probs.append('rank got %d cores, %d requested' % (len(s['cores']), cps))
+        for ro in s['cores']:
+            if n['cores'][ro['index']] != 0.0:
+                probs.append('core %d of node %d is not free' % (ro['index'], ni))
+            if (ni, ro['index']) in used_c:
+                probs.append('core %d of node %d placed twice' % (ro['index'], ni))
+            used_c.add((ni, ro['index']))
+        if gps >= 1:
+            if len(s['gpus']) != int(gps): probs.append('rank got %d gpus' % len(s['gpus']))
+            for ro in s['gpus']:
+                if n['gpus'][ro['index']] != 0.0: probs.append('gpu %d of node %d not free' % (ro['index'], ni))
+                if (ni, ro['index']) in used_g: probs.append('gpu %d of node %d placed twice' % (ro['index'], ni))
+                used_g.add((ni, ro['index']))
+        elif gps > 0:
+            for ro in s['gpus']:
+                share[(ni, ro['index'])] = share.get((ni, ro['index']), 0.0) + ro['occupation']
+        if s['lfs'] != td['lfs_per_rank'] or s['mem'] != td['mem_per_rank']:
+            probs.append('rank lfs/mem %s/%s differs from the request' % (s['lfs'], s['mem']))
+        lfs[ni] = lfs.get(ni, 0) + s['lfs']
+        mem[ni] = mem.get(ni, 0) + s['mem']
+    for (ni, g), sh in share.items():
+        if (by_index[ni]['gpus'][g] or 0.0) + sh > 1.0 + 1e-9:
+            probs.append('shares on gpu %d of node %d sum to %.2f' % (g, ni, sh))
+    for ni in lfs:
+        if lfs[ni] > by_index[ni]['lfs']: probs.append('node %d: %d lfs held, %d available' % (ni, lfs[ni], by_index[ni]['lfs']))
+        if mem[ni] > by_index[ni]['mem']: probs.append('node %d: %d mem held, %d available' % (ni, mem[ni], by_index[ni]['mem']))
+    if td.get('ranks_per_node'):
+        for ni, k in per_node.items():
+            if k > td['ranks_per_node']:
+                probs.append('node %d got %d ranks, limit %d' % (ni, k, td['ranks_per_node']))
+    tag = td['tags'].get('colocate')
+    if tag is not None and colo_hist and str(tag) in colo_hist:
+        for s in slots:
+            if s['node_index'] not in colo_hist[str(tag)]:
+                probs.append('colocate tag %r: node %d was not used for the tag before' % (tag, s['node_index']))
+    return probs
+
+
+def run_schedule_task(rp, nodes, cpn, gpn, task, **kw):
+    c = mk_sched(rp, copy.deepcopy(nodes), cpn, gpn, **kw)
+    hist = copy.deepcopy(c._colo_history)
+    try:
+        slots, part = c.schedule_task(copy.deepcopy(task))
+    except (AssertionError, ValueError):
+        return [], 'rejected'
+    except Exception as e:
+        return ['raised %r' % e], None
+    probs = []
+    if c.nodes != nodes: probs.append('schedule_task modified the node list')
+    if slots is None:
+        return probs, 'none'
+    return probs + check_placement(nodes, slots, task['description'], hist), 'granted'
+
+
+@builder('agent/scheduler/continuous.py:Continuous.schedule_task')
+def schedule_task(case, rp):
+    import itertools
+    n = 0
+    cells = (0.0, 1.0, None)
+    for nn in (1, 2, 3):
+        for occ in itertools.product(cells, repeat=2 * nn):
+            nodes = [{'index': 10 + i, 'name': 'n%d' % i, 'cores': list(occ[2*i:2*i+2]),
+                      'gpus': [0.0, 0.0] if i % 2 == 0 else [None, 0.5], 'lfs': 100, 'mem': 64}
+                     for i in range(nn)]
+            for ranks in (1, 2, 3):
+                for cpr, gpr, lfs, rpn in ((1, 0.0, 0, None), (2, 0.0, 0, None), (1, 1.0, 0, None),
+                                           (1, 0.6, 0, None), (1, 0.0, 80, None), (1, 0.0, 0, 1)):
+                    for scattered in (True, False):
+                        for tags, colo in (({}, {}), ({'colocate': 't'}, {'t': [10]})):
+                            n += 1
+                            task = mk_atask(ranks, cpr, gpr, lfs, 0, rpn, tags)
+                            probs, what = run_schedule_task(rp, nodes, 2, 2, task,
+                                          lfs_pn=100, mem_pn=64, scattered=scattered,
+                                          colo=colo, offset=n % nn)
+                            if probs:
+                                return dict(confirmed=True, detail='; '.join(probs[:3]),
+                                    input=dict(nodes=nodes, task=task['description'],
+                                               scattered=scattered, colo_history=colo, node_offset=n % nn),
+                                    found_by='small-scope native enumeration (%d cases)' % n)
+    return dict(confirmed=False, detail='%d small node-list / request cases hold natively' % n)
